@@ -90,21 +90,21 @@ theorem openWalk_pending : ∀ (n : Nat) (s : St), s.cur = none → n = s.argc -
     unfold streamSpec
     split
     · rename_i name val hcl
-      have h := ih (St.setVarByName { s with idx := s.idx + 1, consumed := s.argv.getD s.idx [] :: s.consumed } name val)
-        (by simp [setVarByName_fields2, hc]) (by simp [setVarByName_fields2]; exact hn')
+      have h := ih (St.setVarByName s.fetch.2 name val)
+        (by simp [setVarByName_fields2, St.fetch, hc]) (by simp [setVarByName_fields2, St.fetch]; exact hn')
       simp only [hcl]
-      simpa [remaining, setVarByName_fields2, ← hn'] using h
+      simpa [remaining, setVarByName_fields2, St.fetch, ← hn'] using h
     · rename_i hcl
-      have h := ih { s with idx := s.idx + 1, consumed := s.argv.getD s.idx [] :: s.consumed } (by simpa using hc) (by simpa using hn')
+      have h := ih s.fetch.2 (by simpa [St.fetch] using hc) (by simpa [St.fetch] using hn')
       simp only [hcl]
-      simpa [remaining, ← hn'] using h
+      simpa [remaining, St.fetch, ← hn'] using h
     · rename_i hcl
       simp only [hcl]
       split
       · rename_i hs
-        have h := ih { (St.setFile { s with idx := s.idx + 1, consumed := s.argv.getD s.idx [] :: s.consumed } [45] true s.stdin)
-          with stdin := [], cur := none } rfl (by simpa [St.setFile] using hn')
-        simpa [remaining, ← hn', St.setFile, hs, numbered] using h
+        have h := ih { (St.setFile s.fetch.2 [45] true s.stdin)
+          with stdin := [], cur := none } rfl (by simpa [St.setFile, St.fetch] using hn')
+        simpa [remaining, St.fetch, ← hn', St.setFile, hs, numbered] using h
       · rename_i r rs hs
         simp [delivered, pending, hs, numbered, St.setFile, St.took, remaining, ← hn', TakeInfo.item]
     · rename_i name hcl
@@ -114,9 +114,9 @@ theorem openWalk_pending : ∀ (n : Nat) (s : St), s.cur = none → n = s.argc -
       | some rs0 =>
         cases rs0 with
         | nil =>
-          have h := ih { (St.setFile { s with idx := s.idx + 1, consumed := s.argv.getD s.idx [] :: s.consumed } name false [])
-            with cur := none } rfl (by simpa [St.setFile] using hn')
-          simpa [remaining, ← hn', St.setFile, numbered] using h
+          have h := ih { (St.setFile s.fetch.2 name false [])
+            with cur := none } rfl (by simpa [St.setFile, St.fetch] using hn')
+          simpa [remaining, St.fetch, ← hn', St.setFile, numbered] using h
         | cons r rs =>
           simp [delivered, pending, numbered, St.setFile, St.took, remaining, ← hn', TakeInfo.item]
 
@@ -238,14 +238,14 @@ theorem openWalk_eof : ∀ (n : Nat) (s : St), s.cur = none → n = s.argc - s.i
     simp only [St.fetch]
     split
     · rename_i name val _
-      exact ih _ (by simp [setVarByName_fields2, hc]) (by simp [setVarByName_fields2]; exact hn')
-    · exact ih _ (by simpa using hc) (by simpa using hn')
+      exact ih _ (by simp [setVarByName_fields2, St.fetch, hc]) (by simp [setVarByName_fields2, St.fetch]; exact hn')
+    · exact ih _ (by simpa [St.fetch] using hc) (by simpa [St.fetch] using hn')
     · split
-      · exact ih _ rfl (by simpa [St.setFile] using hn')
+      · exact ih _ rfl (by simpa [St.setFile, St.fetch] using hn')
       · intro h; cases h
     · split
       · intro h; cases h
-      · exact ih _ rfl (by simpa [St.setFile] using hn')
+      · exact ih _ rfl (by simpa [St.setFile, St.fetch] using hn')
       · intro h; cases h
 
 theorem nextLine_eof_drained (s s1 : St) (h : nextLine s = (.eof, s1)) : pending s1 = [] := by
